@@ -7,9 +7,14 @@ Local Open Scope Z_scope.
 
 (* ---------- structured converter paths ---------- *)
 (* a number: optional sign, integer digits, optional fraction; preceded by any number of spaces *)
-Record mnum := mkMnum { mn_sp : nat; mn_sign : list Z; mn_int : list Z; mn_frac : option (list Z) }.
-Definition mtok (n : mnum) : str :=
+(* a number: leading spaces, sign, integer digits, optional fraction, optional exponent (letter e / E, sign, digits) *)
+Record mnum := mkMnum { mn_sp : nat; mn_sign : list Z; mn_int : list Z; mn_frac : option (list Z);
+                        mn_exp : option (Z * list Z * list Z) }.
+Definition mexp_str (n : mnum) : str :=
+  match mn_exp n with Some (c, sg, ds) => c :: sg ++ ds | None => [] end.
+Definition mmant (n : mnum) : str :=
   mn_sign n ++ mn_int n ++ match mn_frac n with Some f => cDOT :: f | None => [] end.
+Definition mtok (n : mnum) : str := mmant n ++ mexp_str n.
 Definition print_mnum (n : mnum) : str := repeat cSP (mn_sp n) ++ mtok n.
 Definition print_mnums (l : list mnum) : str := flat_map print_mnum l.
 
@@ -32,6 +37,10 @@ Definition mnum_shape0 (n : mnum) : bool :=
   match mn_frac n with
   | Some f => all_digits f && (negb (length (mn_int n) =? 0)%nat || negb (length f =? 0)%nat)
   | None => negb (length (mn_int n) =? 0)%nat
+  end &&
+  match mn_exp n with
+  | Some (c, sg, ds) => is_e c && sign_ok sg && all_digits ds && negb (length ds =? 0)%nat
+  | None => true
   end.
 (* ... and it is a decimal literal (always true for this shape; kept as a check instead of a lemma) *)
 Definition mnum_shape (n : mnum) : bool :=
@@ -40,7 +49,12 @@ Definition mnum_shape (n : mnum) : bool :=
 Definition mfollow_ok (n : mnum) (R : str) : bool :=
   match R with
   | [] => true
-  | c :: _ => negb (is_digit c) && match mn_frac n with Some _ => true | None => negb (c =? cDOT) end
+  | c :: _ =>
+      negb (is_digit c) &&
+      match mn_exp n with
+      | Some _ => true
+      | None => negb (is_expo c) && match mn_frac n with Some _ => true | None => negb (c =? cDOT) end
+      end
   end.
 (* a repeated group must not start with a space-free letter: its first byte (after spaces) is sign, digit or dot *)
 Fixpoint mnums_ok (l : list mnum) (R : str) : bool :=
@@ -103,7 +117,7 @@ Qed.
 
 Definition split_sign (l : str) : str * str :=
   match l with c :: r => if (c =? cPLUS) || (c =? cMINUS) then ([c], r) else ([], l) | [] => ([], []) end.
-Lemma md_token_unfold l : md_token l =
+Lemma md_mantissa_unfold l : md_mantissa l =
   let '(sg, l1) := split_sign l in
   let '(ip, l2) := md_digits l1 [] in
   match l2 with
@@ -112,10 +126,18 @@ Lemma md_token_unfold l : md_token l =
   end.
 Proof. reflexivity. Qed.
 
-Lemma md_token_app n R : mnum_shape n = true -> mfollow_ok n R = true -> md_token (mtok n ++ R) = (mtok n, R).
+(* the mantissa part, followed by anything that does not continue it *)
+Definition mant_follow_ok (n : mnum) (R : str) : bool :=
+  match R with
+  | [] => true
+  | c :: _ => negb (is_digit c) && match mn_frac n with Some _ => true | None => negb (c =? cDOT) end
+  end.
+
+Lemma md_mantissa_app n R : mnum_shape n = true -> mant_follow_ok n R = true -> md_mantissa (mmant n ++ R) = (mmant n, R).
 Proof.
-  intros Sh Fo. unfold mnum_shape in Sh. apply andb_true_iff in Sh as [Sh _]. unfold mnum_shape0 in Sh. apply andb_true_iff in Sh as [Sh Hfr]. apply andb_true_iff in Sh as [Hs Hi].
-  unfold mtok. rewrite md_token_unfold.
+  intros Sh Fo. unfold mnum_shape in Sh. apply andb_true_iff in Sh as [Sh _]. unfold mnum_shape0 in Sh.
+  apply andb_true_iff in Sh as [Sh _]. apply andb_true_iff in Sh as [Sh Hfr]. apply andb_true_iff in Sh as [Hs Hi].
+  unfold mmant. rewrite md_mantissa_unfold.
   rewrite <- !app_assoc.
   set (T := mn_int n ++ match mn_frac n with Some f => cDOT :: f | None => [] end ++ R).
   (* first character after the sign is a digit or a dot, never a sign *)
@@ -134,13 +156,49 @@ Proof.
     rewrite (md_digits_app (mn_int n) [] _ Hi); [|cbn; reflexivity]. cbn [rev app].
     assert (cDOT =? cDOT = true) as -> by reflexivity.
     rewrite (md_digits_app f [] R Hf); [cbn [rev app]; reflexivity|].
-    unfold mfollow_ok in Fo. rewrite Ef in Fo. destruct R as [|c R]; [exact I|]. apply andb_true_iff in Fo as [Fo _].
+    unfold mant_follow_ok in Fo. rewrite Ef in Fo. destruct R as [|c R]; [exact I|]. apply andb_true_iff in Fo as [Fo _].
     apply negb_true_iff in Fo. exact Fo.
-  - cbn [app]. unfold mfollow_ok in Fo. rewrite Ef in Fo.
+  - cbn [app]. unfold mant_follow_ok in Fo. rewrite Ef in Fo.
     rewrite (md_digits_app (mn_int n) [] R Hi).
     + cbn [rev app]. rewrite !app_nil_r. destruct R as [|c R]; [reflexivity|].
       apply andb_true_iff in Fo as [_ Fo]. apply negb_true_iff in Fo. rewrite Fo. reflexivity.
     + destruct R as [|c R]; [exact I|]. apply andb_true_iff in Fo as [Fo _]. apply negb_true_iff in Fo. exact Fo.
+Qed.
+
+Lemma is_e_not_digit c : is_e c = true -> is_digit c = false /\ (c =? cDOT) = false /\ is_expo c = true.
+Proof. unfold is_e, is_expo, is_e, is_digit, ch, cDOT. intros H. repeat split; lia. Qed.
+
+Lemma md_token_app n R : mnum_shape n = true -> mfollow_ok n R = true -> md_token (mtok n ++ R) = (mtok n, R).
+Proof.
+  intros Sh Fo. pose proof Sh as Sh0. unfold mnum_shape in Sh0. apply andb_true_iff in Sh0 as [Sh0 _]. unfold mnum_shape0 in Sh0.
+  apply andb_true_iff in Sh0 as [_ Hex].
+  unfold mtok, md_token, mexp_str. rewrite <- app_assoc.
+  destruct (mn_exp n) as [[[c sg] ds]|] eqn:Ee.
+  - apply andb_true_iff in Hex as [Hex Hne]. apply andb_true_iff in Hex as [Hex Hds]. apply andb_true_iff in Hex as [Hc Hsg].
+    destruct (is_e_not_digit c Hc) as (Nd & Ndot & Ex).
+    rewrite (md_mantissa_app n ((c :: sg ++ ds) ++ R) Sh).
+    2:{ unfold mant_follow_ok. cbn [app]. rewrite Nd, Ndot. destruct (mn_frac n); reflexivity. }
+    cbn [app]. rewrite Ex.
+    (* the sign and the digits of the exponent *)
+    assert (Hd1 : match ds ++ R with d :: _ => (d =? cPLUS) || (d =? cMINUS) = false | [] => True end).
+    { destruct ds as [|d ds']; [cbn in Hne; discriminate|]. cbn [app]. cbn [all_digits forallb] in Hds.
+      apply andb_true_iff in Hds as [Hd _]. unfold is_digit, ch, cPLUS, cMINUS in *. lia. }
+    assert (Hfollow : match R with x :: _ => is_digit x = false | [] => True end).
+    { unfold mfollow_ok in Fo. rewrite Ee in Fo. destruct R as [|x R']; [exact I|].
+      apply andb_true_iff in Fo as [Fo _]. apply negb_true_iff in Fo. exact Fo. }
+    destruct sg as [|g [|? ?]]; try discriminate.
+    + cbn [app]. destruct (ds ++ R) as [|d T] eqn:ET.
+      * destruct ds; [cbn in Hne; discriminate|discriminate ET].
+      * rewrite Hd1. rewrite <- ET. rewrite (md_digits_app ds [] R Hds Hfollow). cbn [rev app]. reflexivity.
+    + cbn [sign_ok] in Hsg. cbn [app]. rewrite Hsg.
+      rewrite (md_digits_app ds [] R Hds Hfollow). cbn [rev app]. reflexivity.
+  - cbn [app]. rewrite !app_nil_r.
+    unfold mfollow_ok in Fo. rewrite Ee in Fo.
+    rewrite (md_mantissa_app n R Sh).
+    2:{ unfold mant_follow_ok. destruct R as [|x R']; [reflexivity|]. apply andb_true_iff in Fo as [F1 F2].
+        apply andb_true_iff in F2 as [_ F3]. rewrite F1, F3. reflexivity. }
+    destruct R as [|x R']; [reflexivity|].
+    apply andb_true_iff in Fo as [_ F2]. apply andb_true_iff in F2 as [F2 _]. apply negb_true_iff in F2. rewrite F2. reflexivity.
 Qed.
 
 (* ---------- scanning a group ---------- *)
@@ -156,7 +214,8 @@ Lemma mtok_first n R : mnum_shape n = true ->
   exists c T, mtok n ++ R = c :: T /\ c =? cSP = false /\ ch c 65 90 = false /\ ch c 97 122 = false.
 Proof.
   intros Sh. unfold mnum_shape in Sh. apply andb_true_iff in Sh as [Sh _]. unfold mnum_shape0 in Sh.
-  apply andb_true_iff in Sh as [Sh Hfr]. apply andb_true_iff in Sh as [Hs Hi]. unfold mtok.
+  apply andb_true_iff in Sh as [Sh _].
+  apply andb_true_iff in Sh as [Sh Hfr]. apply andb_true_iff in Sh as [Hs Hi]. unfold mtok, mmant. rewrite <- !app_assoc.
   destruct (mn_sign n) as [|c [|? ?]]; try discriminate.
   - destruct (mn_int n) as [|d ds].
     + destruct (mn_frac n) as [f|]; [|cbn in Hfr; discriminate]. cbn [app]. exists cDOT. eexists. split; [reflexivity|]. repeat split.
@@ -294,7 +353,7 @@ Proof.
   - rewrite H2, H3. apply Hfin.
 Qed.
 
-Definition unsp (n : mnum) : mnum := mkMnum 0 (mn_sign n) (mn_int n) (mn_frac n).
+Definition unsp (n : mnum) : mnum := mkMnum 0 (mn_sign n) (mn_int n) (mn_frac n) (mn_exp n).
 Definition first_sp (g : list mnum) : nat := match g with n :: _ => mn_sp n | [] => 0%nat end.
 Definition unsp_group (g : list mnum) : list mnum := match g with n :: r => unsp n :: r | [] => [] end.
 
